@@ -9,6 +9,7 @@ import (
 	"strings"
 
 	"golang.org/x/tools/go/packages"
+	"golang.org/x/tools/go/ssa"
 )
 
 func init() {
@@ -89,6 +90,7 @@ func runC19(c *Ctx) {
 
 	checkUTF8Tables(c, p)
 	checkReaderDiscipline(c, p)
+	checkColumnBookkeeping(c, p, set)
 }
 
 // checkBlankDiscard: on a dead transition in the start state the documented blanks are skipped and scanning restarts.
@@ -361,4 +363,131 @@ func checkReaderDiscipline(c *Ctx, p *packages.Package) {
 	c.Check("R19.4", "reader: Retract undoes the end-of-input latch set when the last byte was handed out", token.NoPos, undone,
 		"next() latches io.EOF as soon as it has returned the last byte; Retract moves forward back but leaves the latch set, so the retracted last character is never read again: a one-character final token is lost",
 		"input \"a+b\" for tokens ID and \"+\": the final b is retracted after + and then lost")
+}
+
+
+// checkColumnBookkeeping: on every successful path of the emitted Next exactly one rune size is recorded, and the column is
+// either incremented once or, for a line terminator, saved *unmodified* (so that Retract restores it) and reset to 1.
+func checkColumnBookkeeping(c *Ctx, p *packages.Package, set *skeletonSet) {
+	var fd *ast.FuncDecl
+	AllFuncDecls(p, func(f *ast.FuncDecl) {
+		if f.Recv != nil && f.Name.Name == "Next" && f.Body != nil {
+			if fo, ok := p.TypesInfo.Defs[f.Name].(*types.Func); ok {
+				sig := fo.Type().(*types.Signature)
+				if sig.Results().Len() == 2 && isRune(sig.Results().At(0).Type()) {
+					fd = f
+				}
+			}
+		}
+	})
+	if fd == nil || set.prog == nil {
+		c.Lost("R19.4", "SSA of the emitted Next")
+		return
+	}
+	fn := set.prog.FuncValue(p.TypesInfo.Defs[fd.Name].(*types.Func))
+	if fn == nil {
+		c.Lost("R19.4", "SSA of the emitted Next")
+		return
+	}
+	type event struct{ kind, detail string }
+	fieldOfAddr := func(v ssa.Value) string {
+		if fa, ok := v.(*ssa.FieldAddr); ok {
+			return fieldName(fa)
+		}
+		return ""
+	}
+	eventsOf := func(b *ssa.BasicBlock) []event {
+		var out []event
+		for _, in := range b.Instrs {
+			switch x := in.(type) {
+			case *ssa.Store:
+				if f := fieldOfAddr(x.Addr); f == "nextColumn" {
+					d := "other"
+					if k, ok := x.Val.(*ssa.Const); ok && isConstInt(k, 1) {
+						d = "reset"
+					} else if bo, ok := x.Val.(*ssa.BinOp); ok && bo.Op == token.ADD && isConstInt(bo.Y, 1) {
+						if u, ok := bo.X.(*ssa.UnOp); ok && fieldOfAddr(u.X) == "nextColumn" {
+							d = "inc"
+						}
+					}
+					out = append(out, event{"col", d})
+				}
+			case ssa.CallInstruction:
+				if methodNameOf(x) == "Push" {
+					recv := recvOf(x)
+					target := ""
+					if u, ok := recv.(*ssa.UnOp); ok {
+						target = fieldOfAddr(u.X)
+					}
+					args := x.Common().Args
+					arg := args[len(args)-1]
+					switch target {
+					case "runeSizes":
+						out = append(out, event{"size", ""})
+					case "lastColumns":
+						d := "other"
+						if u, ok := arg.(*ssa.UnOp); ok && fieldOfAddr(u.X) == "nextColumn" {
+							d = "column"
+						}
+						out = append(out, event{"save", d})
+					}
+				}
+			}
+		}
+		return out
+	}
+	nPaths, bad := 0, ""
+	var walk func(b *ssa.BasicBlock, evs []event, depth int)
+	walk = func(b *ssa.BasicBlock, evs []event, depth int) {
+		if depth > 200 || bad != "" {
+			return
+		}
+		evs = append(append([]event(nil), evs...), eventsOf(b)...)
+		if ret, ok := b.Instrs[len(b.Instrs)-1].(*ssa.Return); ok {
+			if !isNilConst(retOperand(ret, 1)) {
+				return
+			}
+			nPaths++
+			sizes, cols := 0, []string{}
+			saveAt, firstColAt := -1, -1
+			for i, e := range evs {
+				switch e.kind {
+				case "size":
+					sizes++
+				case "col":
+					cols = append(cols, e.detail)
+					if firstColAt < 0 {
+						firstColAt = i
+					}
+				case "save":
+					if e.detail != "column" {
+						bad = "a value other than the current column is saved for a line terminator"
+					}
+					saveAt = i
+				}
+			}
+			if sizes != 1 {
+				bad = fmt.Sprintf("a successful path records %d rune sizes (Retract and the offset need exactly one)", sizes)
+			}
+			if saveAt >= 0 {
+				if firstColAt >= 0 && firstColAt < saveAt {
+					bad = "the column is modified before it is saved for the line terminator: Retract restores a column that is off by one"
+				}
+				if len(cols) != 1 || cols[0] != "reset" {
+					if bad == "" {
+						bad = fmt.Sprintf("after saving the column for a line terminator the column updates are %v (expected one reset to 1)", cols)
+					}
+				}
+			} else if len(cols) != 1 || cols[0] != "inc" {
+				bad = fmt.Sprintf("a successful path updates the column %v (expected exactly one increment)", cols)
+			}
+			return
+		}
+		for _, s := range b.Succs {
+			walk(s, evs, depth+1)
+		}
+	}
+	walk(fn.Blocks[0], nil, 0)
+	c.Check("R19.4", "reader: every successful path of Next records one rune size and keeps the column bookkeeping that Retract undoes", token.NoPos, bad == "" && nPaths >= 4,
+		fmt.Sprintf("%s (%d successful paths examined)", bad, nPaths), "a line terminator that is itself a token, read as look-ahead and retracted: \"ab\\n12\"")
 }
